@@ -292,6 +292,98 @@ func genReadback(t *rapid.T) rbCase {
 var chkReadback = harness.Define("coil-write-readback", genReadback, runReadback).Repeated(2)
 
 // ---------------------------------------------------------------------------
+// the same with a long pattern written in chunks: every write request gets a sub-slice of the caller's ONE pattern (all but the last
+// have spare capacity - the following chunk), then the whole range is read back and compared with the pattern as the caller made it
+
+type chunkCase struct {
+	Framing spec.Framing `json:"framing"`
+	Start   int          `json:"start"`
+	Chunks  []int        `json:"chunks"`
+	Pattern spec.Hex     `json:"pattern"` // packed, bit i = coil i
+	Seed    uint64       `json:"seed"`
+}
+
+func runChunks(c chunkCase) harness.Result {
+	total := 0
+	for _, n := range c.Chunks {
+		total += n
+	}
+	pattern := cat.CoilsOf(c.Pattern, total)
+	want := append([]bool(nil), pattern...)
+	dev := device.New(c.Seed)
+	off := 0
+	for i, n := range c.Chunks {
+		wq, err := cat.NewWriteCoilsRequest(c.Framing, 5, uint16(100+i), uint16(c.Start+off), pattern[off:off+n])
+		if err != nil {
+			return harness.Fail("write-multiple-coils constructor refused chunk %d (%d coils): %v", i+1, n, err)
+		}
+		wreply := dev.Answer(c.Framing, wq.Bytes())
+		if _, err := parseResp(c.Framing, wreply); err != nil {
+			return harness.Fail("device reply to the write request %x was %x: %v", wq.Bytes(), wreply, err)
+		}
+		off += n
+	}
+	for i := range want {
+		if pattern[i] != want[i] {
+			return harness.Fail("a pattern of %d coils was written in chunks of %v coils (each request built from a sub-slice of the pattern): coil %d of the CALLER'S pattern has changed to %v", total, c.Chunks, i, pattern[i])
+		}
+		if dev.Coil(device.Coils, c.Start+i) != want[i] {
+			return harness.Fail("a pattern of %d coils was written in chunks of %v coils (each request built from a sub-slice of the pattern): the conforming device holds %v at coil %d, the pattern says %v", total, c.Chunks, !want[i], i, want[i])
+		}
+	}
+	var o []obs
+	for roff := 0; roff < total; roff += 2000 {
+		n := min(2000, total-roff)
+		part := spec.PackCoils(want[roff : roff+n]) // (the listed reversed-bytes layout is relative to each response's own payload)
+		rq, err := cat.NewRequest(c.Framing, spec.Req{FC: 1, Unit: 5, Tx: 99, Addr: uint16(c.Start + roff), Qty: uint16(n)})
+		if err != nil {
+			return harness.Fail("read-coils constructor refused quantity %d: %v", n, err)
+		}
+		rreply := dev.Answer(c.Framing, rq.Bytes())
+		rresp, err := parseResp(c.Framing, rreply)
+		if err != nil {
+			return harness.Fail("device reply to the read request was %x: %v", rreply, err)
+		}
+		for i := 0; i < n; i++ {
+			got, err := isSet(rresp, 0, uint16(c.Start+roff), uint16(c.Start+roff+i))
+			if err != nil {
+				return harness.Fail("read back: coil %d of %d: %v", roff+i, total, err)
+			}
+			o = append(o, obs{roff + i, got, want[roff+i], revBit(part, i)})
+		}
+	}
+	labels := []string{"readback-in-chunks", c.Framing.String(), fmt.Sprintf("chunks:%d", len(c.Chunks))}
+	if c.Chunks[0]%8 != 0 {
+		labels = append(labels, "first-chunk-ends-inside-a-byte")
+	}
+	res := verdict(fmt.Sprintf("write %d coils at %d in chunks of %v then read back", total, c.Start, c.Chunks), o, labels)
+	res.Weight = int64(total)
+	res.NonTrivial = len(c.Chunks) >= 2 && total > 8
+	return res
+}
+
+func genChunks(t *rapid.T) chunkCase {
+	c := chunkCase{Framing: gen.Framing(t), Seed: rapid.Uint64().Draw(t, "seed")}
+	k := rapid.IntRange(2, 4).Draw(t, "chunks")
+	total := 0
+	for i := 0; i < k; i++ {
+		n := rapid.SampledFrom([]int{1, 7, 8, 9, 100, 1000, 1967, 1968, -1, -1, -1}).Draw(t, "n")
+		if n < 0 {
+			n = rapid.IntRange(1, 400).Draw(t, "n_any")
+		}
+		c.Chunks = append(c.Chunks, n)
+		total += n
+	}
+	c.Pattern = gen.Payload(t, "pattern", (total+7)/8)
+	c.Start = rapid.SampledFrom([]int{0, 1, 1000, 65536 - total}).Draw(t, "start")
+	return c
+}
+
+var chkChunks = harness.Define("coil-write-in-chunks-readback", genChunks, runChunks).Repeated(2)
+
+func TestChunkedWrite(t *testing.T) { chkChunks.Rapid(t, harness.Pick(1500, 60000)) }
+
+// ---------------------------------------------------------------------------
 // builder: coil fields -> requests -> device -> ExtractFields
 
 type bCase struct {
